@@ -194,3 +194,21 @@ CHECKS["C11"] = dict(
               "after-close:readfrom:", "after-close:writerwrite:", "close-arg-nil:true", "close-arg-nil:false", "kind:sync", "kind:qblock", "kind:qnonblock"],
     assumptions=_E1_ASSUME + ["'Close has returned' is observed as: inactive delivered and no task inside Close any more"],
 )
+
+CHECKS["C18"] = dict(
+    test="TestC18", level="exploration",
+    quick=dict(shards=16, checks=400, timeout=400),
+    thorough=dict(shards=16, checks=60000, timeout=3400, shrinktime="120s"),
+    rule="cooperative-scheduler cases on queued channels (queue 1-4, blocking and non-blocking mode): 1-4 writer tasks x 1-5 calls over the "
+         "five entry points with background / already-cancelled / live caller contexts (a canceller task cancels the live ones at a "
+         "scheduled moment), sender normal, never scheduled before the final sweep (stalled executor) or parked inside the transport's "
+         "Writev by a directed prefix, optionally a concurrent Close. The state at the instant a call passes the enqueue point (queue "
+         "full? caller context done? channel done?) is read while nothing else runs, so the oracle is exact: non-blocking calls return "
+         "the queue-full error iff the queue is full and nothing is done, never block; blocking calls are parked only while full and "
+         "nothing done, and return success (room) / the context error / a closed error accordingly; a failed call transmits nothing; "
+         "accepted-but-unsent payloads never exceed queue + batch; at the terminal state a blocking writer on a full queue is forced on "
+         "and must be found waiting in the enqueue select. Non-trivial = some call met a full queue. Distinct by case hash.",
+    required=["queue-full-at-call", "returned:no-space", "returned:ctx-cancelled", "returned:closed", "parked-then-released-by-room",
+              "parked-then-released-by-error", "probe:blocking-writer-waits", "stall:never", "kind:qblock", "kind:qnonblock", "queue:1", "queue:2", "queue:>2"],
+    assumptions=_E1_ASSUME,
+)
